@@ -19,9 +19,9 @@ import (
 	"github.com/go-kid/ioc/container/factory"
 	"github.com/go-kid/ioc/container/support"
 	"pgregory.net/rapid"
+	altzoo "verif/harness/alt/zoo"
 	"verif/harness/kit"
 	"verif/harness/model"
-	altzoo "verif/harness/alt/zoo"
 	"verif/harness/zoo"
 )
 
@@ -61,6 +61,7 @@ type Scenario struct {
 	OrdMode  int   // 0 fixed ranks, 1 reshuffle on every enumeration
 	OrdSeed  uint64
 	NoPermut bool // leave the registries' own (sync.Map) order in place
+	NoHook   bool // run on the library's own factory.Default() and registry: no order control, no call trace
 }
 
 func (s *Scenario) String() string {
@@ -198,6 +199,8 @@ func DrawOrders(t *rapid.T, s *Scenario) {
 	s.RegPerm = rapid.Permutation(seq(total)).Draw(t, "regperm")
 	s.OrdMode = rapid.IntRange(0, 1).Draw(t, "ordmode")
 	s.OrdSeed = rapid.Uint64().Draw(t, "ordseed")
+	// now and then nothing of the harness sits between the App and its own default factory / registries
+	s.NoHook = rapid.IntRange(0, 5).Draw(t, "nohook") == 0
 }
 
 func seq(n int) []int {
@@ -211,13 +214,14 @@ func seq(n int) []int {
 // ---------------------------------------------------------------------------
 
 type Instance struct {
-	S     *Scenario
-	Comps []any // scenario components in scenario order (nodes, selfs, z)
-	Behs  []*zoo.Beh
-	IDs   map[uintptr]int
-	Log   *zoo.Log
-	Extra []any // additional components (post-processors, runners ...) registered after Comps
-	Pre   func(a *app.App) // optional: sees the App before it runs
+	S         *Scenario
+	Comps     []any // scenario components in scenario order (nodes, selfs, z)
+	Behs      []*zoo.Beh
+	IDs       map[uintptr]int
+	Log       *zoo.Log
+	Extra     []any            // additional components (post-processors, runners ...) registered after Comps
+	Pre       func(a *app.App) // optional: sees the App before it runs
+	ForceHook bool             // the check needs the call trace: never run without the hook
 
 	Tracer *Tracer
 	Out    kit.Outcome
@@ -285,6 +289,10 @@ func (in *Instance) Run(extraOps ...app.SettingOption) {
 	f := factory.NewWithRegistries(dr, in.Tracer)
 	reg := &permReg{SingletonRegistry: support.NewRegistry(), ord: ord}
 	ops := []app.SettingOption{app.SetFactory(f), app.SetRegistry(reg), app.SetComponents(in.Ordered()...)}
+	if s.NoHook && !in.ForceHook {
+		in.Tracer = &Tracer{}
+		ops = []app.SettingOption{app.SetComponents(in.Ordered()...)}
+	}
 	if len(in.Extra) > 0 {
 		ops = append(ops, app.SetComponents(in.Extra...))
 	}
@@ -317,6 +325,22 @@ func (in *Instance) Run(extraOps ...app.SettingOption) {
 		}
 	}
 	in.G = model.Build(model.Population(regd, in.IDs))
+}
+
+// WasCreated reports whether the container created (populated / initialised) scenario component id:
+// from the call trace when the hook is in place, otherwise from the component's own callback counters.
+func (in *Instance) WasCreated(id int) bool {
+	if len(in.Tracer.Events) > 0 {
+		n := in.Comp(id).Name
+		for _, e := range in.Tracer.Events {
+			if e.Op == "create-exit" && !e.Err && e.Flag && e.Name == n {
+				return true
+			}
+		}
+		return false
+	}
+	b := in.Behs[id]
+	return b != nil && (b.InitCalls > 0 || b.APSCalls > 0)
 }
 
 // Comp returns the model component of scenario id.
